@@ -279,6 +279,9 @@ def handle (st : DState) (op : String) (args : List SX) : DState × SX :=
   | "render", [t] => (st, .str (renderStr (decTree t)))
   | "readable", [t] => (st, .str (renderReadable (fun a => a.key) (decTree t)))
   | "rendert", [pre, post, t] => (st, .str (renderT (fun a => pre.getStr ++ a.key ++ post.getStr) (decTree t)))
+  | "rendertf", [pre, post, excs, t] =>    -- a template that shows the key of exceptions only (and nothing for the others), or of the others only
+    let showExc := excs.getTag == "exc"
+    (st, .str (renderT (fun a => if a.exc == showExc then pre.getStr ++ a.key ++ post.getStr else []) (decTree t)))
   | "readablet", [pre, post, t] => (st, .str (renderReadable (fun a => pre.getStr ++ a.key ++ post.getStr) (decTree t)))
   | "simplify", [t] => (st, encTree (simplifyE (decTree t)))
   | "dedup", [t] => (st, encTree (dedupE (decTree t)))
